@@ -82,6 +82,10 @@ def run(ctx):
               (1 << 61) + 24, (1 << 62) + 12, (1 << 63) - 1, 1 << 63, (1 << 63) + 12, (1 << 64) - 4, (1 << 64) - 1, 1 << 64, (1 << 64) + 12, 10 ** 30):
         add(L, b"\x00" * 16)
         add(L, rbytes(rng, 32), args=["new", "--length=%d" % L])
+    # unsupported lengths are refused in every mode of `new` (with a vanity search as well), before any entropy is requested
+    for L in list(range(0, 12)) + [13, 14, 16, 17, 19, 20, 22, 23, 25, 26, 27, 32, 33, 48]:
+        add(L, rbytes(rng, 32), args=["new", "-n", str(L), "--vanity-prefix", "0x", "-j", str(rng.choice([0, 1, 2]))])
+        add(L, rbytes(rng, 32), args=["new", "--vanity-prefix", "0x" + rng.choice("0123456789abcdef"), "--length=%d" % L])
     add(12, rbytes(rng, 16), args=["new"])  # default length
     add(12, rbytes(rng, 16), args=["new", "--length", "12", "--language", "english"])
     add(12, rbytes(rng, 16), args=["new", "-n", "12", "-l", "ENGLISH"])
@@ -156,7 +160,8 @@ def run(ctx):
     # persistent failure must be an error exit with nothing printed, and must terminate; after transient failures the command may
     # give up (error) or try again, but a printed phrase must then be exactly the buffer of the request that SUCCEEDED
     eruns, emeta = [], []
-    errnos = ["EINTR", "EAGAIN", "ENOSYS", "EPERM", "EINVAL", "ENOMEM", "EFAULT", "EIO", "11", "38"]
+    # ("NONE": the call returns -1 and leaves errno at 0 — the failure is in the return value, whatever errno says)
+    errnos = ["EINTR", "EAGAIN", "ENOSYS", "EPERM", "EINVAL", "ENOMEM", "EFAULT", "EIO", "11", "38", "NONE", "4095", "65535"]
     for e in errnos:
         for args in (["new"], ["new", "-n", "24"], ["new", "--vanity-prefix", "0x0", "-j", "0"], ["new", "--vanity-prefix", "0x0", "-j", "1"],
                      ["new", "--vanity-prefix", "0x00", "-j", "3"]):
@@ -167,7 +172,7 @@ def run(ctx):
         eruns.append(dict(args=["new"] + rng.choice([[], ["-n", "24"], ["--vanity-prefix", "0x0", "-j", str(rng.choice([0, 1, 2]))]]), timeout=30,
                           env=dict(LD_PRELOAD=shim, HDW_SHIM_DEFAULT="fail:%d" % e)))
         emeta.append(("persistent", str(e), None))
-    for e in ("EINTR", "EAGAIN", "EIO"):
+    for e in ("EINTR", "EAGAIN", "EIO", "NONE"):
         for k in (1, 2, 3, 4, 5, 9):
             for L in (12, 24):
                 pat = rbytes(rng, LENS[L])
